@@ -13,6 +13,9 @@ pub trait Flt:
     const MANT: u32;
     /// exponent window for generated magnitudes (see DESIGN 3.3)
     const EWIN: i32;
+    /// absolute slack for underflow: 16 x the smallest positive subnormal (each operation that
+    /// underflows errs by at most half of it)
+    const TINY: f64;
     fn of(v: f64) -> Self;
     fn f(self) -> f64;
     fn key(self) -> u64;
@@ -25,6 +28,7 @@ impl Flt for f64 {
     const U: f64 = 1.1102230246251565e-16;
     const MANT: u32 = 53;
     const EWIN: i32 = 60;
+    const TINY: f64 = 7.9e-323;
     fn of(v: f64) -> Self {
         v
     }
@@ -47,6 +51,7 @@ impl Flt for f32 {
     const U: f64 = 5.960464477539063e-8;
     const MANT: u32 = 24;
     const EWIN: i32 = 12;
+    const TINY: f64 = 2.25e-44;
     fn of(v: f64) -> Self {
         v as f32
     }
